@@ -57,6 +57,8 @@ def parse_type(s):
             return ('list', parse_type(parts[0]))
         if head in ('Optional',):
             return ('opt', parse_type(parts[0]))
+        if head == 'Maybe':
+            return ('optsym', parse_type(parts[0]))    # Optional parameter kept symbolic (one entry state)
         if head in ('tuple', 'Tuple'):
             return ('tuple', tuple(parse_type(p) for p in parts))
         if head in ('dict', 'Dict'):
